@@ -153,6 +153,41 @@ CHECKS = {
              "e2e correspondence; the kernel model's two events are a hand-written table",
         technique="Lean 4 iff theorem over the channel stack model + whole-table decide over regenerated tables + differential ovniemu runs",
         design="DESIGN.md §5 C08"),
+    "C09": dict(
+        text=("Theorems (Props/C09.lean, 7) over Rt/Fs.lean: the runtime's libc calls as a list produced by a transcription of "
+              "ovni_proc_init / thread_init / flushes / attr_flush / thread_free (metadata store = fopen, fputs, fclose; the "
+              "relocation of OVNI_TMPDIR mode) / proc_fini over an abstract file system; a crash = any prefix of the call list "
+              "plus any prefix of what stdio had buffered: for every program, every crash point, every stdio state, both "
+              "modes: if the emulator's acceptance predicate holds of what is left then every visible stream.obs contains "
+              "exactly what its thread had flushed (crash_consistent), and finished=1 visible in the final directory implies "
+              "the final stream.obs is complete (finished_after_data); the same for every interleaving of several threads' "
+              "calls (crash_consistent_any_schedule, finished_after_data_any_schedule); 'complete' is the disk content of the "
+              "C01/C02 buffer model (obsBytes_is_buffer_disk). Full strength for the code after the repairs 5598237 + a18b720; "
+              "the statements are proved FALSE for the code before them (crash_consistent_before_fix, "
+              "finished_after_data_before_fix, decide witnesses replayed on libovni). Tie: the real ovni.c with interposed "
+              "libc (rt harness): the logged call sequence equals the model's call list in direct and TMPDIR mode; a kill "
+              "before EVERY intercepted call of generated programs, the remains must be a crash state of the model, and "
+              "`ovniemu -l` on the remains must not accept while flushed events are missing."),
+        note=TB + "; PARTIAL BY NATURE: a process kill only (completed system calls persist) - no power loss, no page-cache model; "
+             "JSON is a codec parameter (round trip, proper prefixes do not parse); single-thread correspondence",
+        technique="Lean 4 prefix invariants over the runtime's file-system call list + kill-injection differential runs of libovni and ovniemu",
+        design="DESIGN.md §5 C09"),
+    "C10": dict(
+        text=("Theorems (Props/C10.lean, 9) over the same model: for every program, both modes, every call index, every fault kind "
+              "(errno failure or short write) and stdio state, the runtime either aborts with a complete copy of every "
+              "thread's flushed bytes still present (or the failing call was close() of the stream itself), or returns with "
+              "every freed thread's final trace complete (single_fault_not_silent, no site hypothesis, for the code after the "
+              "repair 5598237); a fault-free run never passes through a state without a complete copy "
+              "(fault_free_run_keeps_a_complete_copy); the statement is proved FALSE for the code before the repair, one decide "
+              "witness per unchecked site (close_streamfd_unchecked, move_opendir_failure_silent, move_readdir_failure_silent, "
+              "move_ignores_copy_errors, move_ignores_fclose_error, move_ignores_fopen_error, "
+              "single_fault_not_silent_before_fix). Tie: a fault at EVERY intercepted call of generated programs x "
+              "{ENOSPC, EIO, EACCES, short}: abort vs return, the calls made after the fault and the final directory contents "
+              "equal the model's; oracle 'returned => final trace complete; a complete copy survives'; fault counters in the evidence."),
+        note=TB + "; failed close/fclose semantics as stated in Rt/Fs applyFailed (a failed close loses the last write; a failed "
+             "fclose keeps what stdio had already flushed); one fault per run; threads run one after the other in the C10 theorem",
+        technique="Lean 4 case analysis over call sites lifted over positions + fault-injection differential runs of libovni",
+        design="DESIGN.md §5 C10"),
     "C11": dict(
         text=("Theorems (Props/C11.lean, 19) over an interleaving model whose shared accesses are built from a FOOTPRINT regenerated "
               "from ovni.c + common.c through the clang AST on every run (tools/gen/gen_footprint.py): every API function "
